@@ -1341,6 +1341,41 @@ proof fn ptgstr_length(cch: int, hb: bool, adv: int)
         adv == 2 + cch * xl_width(hb),
 {}
 
+// =====================================================================================================================
+// The loop invariant of the functional copy, as one opaque predicate (so that re-establishing it after the `match` is a look-up)
+// =====================================================================================================================
+/// the oracle renders the whole formula, the rest of its run starts from the code's state (remaining bytes rg, operands ops),
+/// and the code's text / offsets represent these operands
+#[verifier::opaque]
+spec fn inv(all: Seq<u8>, c: Ctx, rg: Seq<u8>, ops: Seq<Seq<char>>, f: Seq<char>, st: Seq<usize>) -> bool {
+    render(all, c) is Some && render(all, c) == fin(run(rg, ops, c)) && repr(f, st, ops)
+}
+spec fn next_ops(rg: Seq<u8>, ops: Seq<Seq<char>>, c: Ctx) -> Seq<Seq<char>> { step(rg, ops, c)->Some_0.1 }
+proof fn lemma_inv_init(all: Seq<u8>, c: Ctx, f: Seq<char>, st: Seq<usize>)
+    requires render(all, c) is Some, f == Seq::<char>::empty(), st == Seq::<usize>::empty(),
+    ensures inv(all, c, all.subrange(2, 2 + le16(all)), Seq::empty(), f, st), all.len() >= 2 + le16(all),
+{
+    reveal(inv);
+    lemma_repr_basics(f, st, Seq::empty());
+}
+proof fn lemma_inv_use(all: Seq<u8>, c: Ctx, rg: Seq<u8>, ops: Seq<Seq<char>>, f: Seq<char>, st: Seq<usize>)
+    requires inv(all, c, rg, ops, f, st),
+    ensures
+        repr(f, st, ops), st.len() == ops.len(), render(all, c) is Some,
+        rg.len() > 0 ==> step(rg, ops, c) is Some,
+        rg.len() == 0 ==> ops.len() == 1 && Some(f) == render(all, c),
+{
+    reveal(inv);
+    lemma_repr_basics(f, st, ops);
+}
+proof fn lemma_advance(all: Seq<u8>, c: Ctx, rg: Seq<u8>, ops: Seq<Seq<char>>, f: Seq<char>, st: Seq<usize>, rg_out: Seq<u8>, f_out: Seq<char>, st_out: Seq<usize>)
+    requires inv(all, c, rg, ops, f, st), rg.len() > 0, arm_ok(rg, ops, c, f, st, rg_out, f_out, st_out),
+    ensures inv(all, c, rg_out, next_ops(rg, ops, c), f_out, st_out), rg_out.len() < rg.len(),
+{
+    reveal(inv);
+    reveal(arm_ok);
+}
+
 pub mod m_wf {
 use super::*;
 verus! {
@@ -1359,14 +1394,13 @@ verus! {
     let ghost mut ops: Seq<Seq<char>> = Seq::empty();
 //@@ before /while !rgce\.is_empty\(\)/
     proof {
-        lemma_repr_basics(formula@, stack@, ops);
+        lemma_inv_init(__p_rgce@, ctx, formula@, stack@);
     }
 //@@ loop 0
         invariant
             ctx == mk_ctx(sheets@, names@, xtis@, *encoding),
-            render(__p_rgce@, ctx) is Some,
             //# C14.token_step
-            render(__p_rgce@, ctx) == fin(run(rgce@, ops, ctx)) && repr(formula@, stack@, ops),
+            inv(__p_rgce@, ctx, rgce@, ops, formula@, stack@),
         decreases rgce@.len(),
 //@@ before /let ptg = rgce\[0\];/
         broadcast use axiom_display_u16, axiom_display_u32, axiom_display_str, axiom_display_string, axiom_str_index_range, axiom_string_index_req_range;
@@ -1375,113 +1409,201 @@ verus! {
         let ghost st_in = stack@;
         let ghost ops_in = ops;
         proof {
-            lemma_run_step(rg_in, ops_in, ctx);
+            lemma_inv_use(__p_rgce@, ctx, rg_in, ops_in, f_in, st_in);
             lemma_dispatch(rg_in, ctx);
             lemma_byte_masks();
-            lemma_repr_basics(f_in, st_in, ops_in);
             if ops_in.len() > 0 { lemma_repr_at(f_in, st_in, ops_in, ops_in.len() - 1); }
         }
 //@@ after /0x21 \| 0x22 \| 0x41 \| 0x42 \| 0x61 \| 0x62 => \{/
                 proof { assume(false); } // DEV
 //@@ before /\}\s*0x3b \| 0x5b \| 0x7b =>/
                 proof {
-                    assume(arm_ok(rg_in, ops_in, ctx, f_in, st_in, rgce@, formula@, stack@)); // DEV
+                    let sh = sheet_name(le16(rg_in.skip(1)), ctx)->Some_0;
+                    let rw = le16(rg_in.skip(1).skip(2));
+                    let cf = le16(rg_in.skip(1).skip(4));
+                    lemma_cell_text_pieces(f_in + sh + seq!['!'], rw, cf);
+                    lemma_assoc(f_in, sh + seq!['!'], cell_text(rw, cf)); lemma_assoc(f_in, sh, seq!['!']);
+                    assert(rgce@ =~= rg_in.skip(7));
+                    step_operand(A::ptgref3d, rg_in, ops_in, ctx, f_in, st_in, rgce@, formula@, stack@, sh + seq!['!'] + cell_text(rw, cf), 7);
+                    lemma_advance(__p_rgce@, ctx, rg_in, ops_in, f_in, st_in, rgce@, formula@, stack@);
                 }
 //@@ before /\}\s*0x3c \| 0x5c \| 0x7c =>/
                 proof {
-                    assume(arm_ok(rg_in, ops_in, ctx, f_in, st_in, rgce@, formula@, stack@)); // DEV
+                    let sh = sheet_name(le16(rg_in.skip(1)), ctx)->Some_0;
+                    let ixti = le16(rg_in.skip(1));
+                    let r1 = le16(rg_in.skip(1).skip(2)); let r2 = le16(rg_in.skip(1).skip(4)); let cf1 = le16(rg_in.skip(1).skip(6)); let cf2 = le16(rg_in.skip(1).skip(8));
+                    let t = sh + seq!['!'] + area_text(r1, r2, cf1, cf2);
+                    let shc = if ixti < ctx.sheets.len() { ctx.sheets[ixti] } else { "#REF"@ };
+                    ptg3d_sheet(ixti, ctx, shc);
+                    lemma_push_add(f_in + shc, '!');
+                    ptgarea_text(f_in + shc + seq!['!'], r1, r2, cf1, cf2, formula@);
+                    lemma_assoc(f_in, sh + seq!['!'], area_text(r1, r2, cf1, cf2)); lemma_assoc(f_in, sh, seq!['!']);
+                    assert(rgce@ =~= rg_in.skip(11));
+                    step_operand(A::ptgarea3d, rg_in, ops_in, ctx, f_in, st_in, rgce@, formula@, stack@, t, 11);
+                    lemma_advance(__p_rgce@, ctx, rg_in, ops_in, f_in, st_in, rgce@, formula@, stack@);
                 }
 //@@ before /\}\s*0x3d \| 0x5d \| 0x7d =>/
                 proof {
-                    assume(arm_ok(rg_in, ops_in, ctx, f_in, st_in, rgce@, formula@, stack@)); // DEV
+                    let sh = sheet_name(le16(rg_in.skip(1)), ctx)->Some_0;
+                    let ixti = le16(rg_in.skip(1));
+                    let t = sh + seq!['!'] + "#REF!"@;
+                    let shc = if ixti < ctx.sheets.len() { ctx.sheets[ixti] } else { "#REF"@ };
+                    ptg3d_sheet(ixti, ctx, shc);
+                    assert(formula@ =~= f_in + t);
+                    assert(rgce@ =~= rg_in.skip(7));
+                    step_operand(A::ptgreferr3d, rg_in, ops_in, ctx, f_in, st_in, rgce@, formula@, stack@, t, 7);
+                    lemma_advance(__p_rgce@, ctx, rg_in, ops_in, f_in, st_in, rgce@, formula@, stack@);
                 }
 //@@ before /\}\s*0x01 =>/
                 proof {
-                    assume(arm_ok(rg_in, ops_in, ctx, f_in, st_in, rgce@, formula@, stack@)); // DEV
+                    let sh = sheet_name(le16(rg_in.skip(1)), ctx)->Some_0;
+                    let ixti = le16(rg_in.skip(1));
+                    let t = sh + seq!['!'] + "#REF!"@;
+                    let shc = if ixti < ctx.sheets.len() { ctx.sheets[ixti] } else { "#REF"@ };
+                    ptg3d_sheet(ixti, ctx, shc);
+                    assert(formula@ =~= f_in + t);
+                    assert(rgce@ =~= rg_in.skip(11));
+                    step_operand(A::ptgareaerr3d, rg_in, ops_in, ctx, f_in, st_in, rgce@, formula@, stack@, t, 11);
+                    lemma_advance(__p_rgce@, ctx, rg_in, ops_in, f_in, st_in, rgce@, formula@, stack@);
                 }
 //@@ before /\}\s*0x03\.\.=0x11 =>/
                 proof {
-                    assume(arm_ok(rg_in, ops_in, ctx, f_in, st_in, rgce@, formula@, stack@)); // DEV
+                    step_none(A::ptgexp, rg_in, ops_in, ctx, f_in, st_in, rgce@, formula@, stack@);
+                    lemma_advance(__p_rgce@, ctx, rg_in, ops_in, f_in, st_in, rgce@, formula@, stack@);
                 }
 //@@ before /\}\s*0x12 =>/
                 proof {
-                    assume(arm_ok(rg_in, ops_in, ctx, f_in, st_in, rgce@, formula@, stack@)); // DEV
+                    binary_symbol(rg_in[0] as int, op@);
+                    assert(stack@ =~= st_in.drop_last());
+                    assert(rgce@ =~= rg_in.skip(1));
+                    step_binary(A::binary, rg_in, ops_in, ctx, f_in, st_in, rgce@, formula@, stack@, op@);
+                    lemma_advance(__p_rgce@, ctx, rg_in, ops_in, f_in, st_in, rgce@, formula@, stack@);
                 }
 //@@ before /\}\s*0x13 =>/
                 proof {
-                    assume(arm_ok(rg_in, ops_in, ctx, f_in, st_in, rgce@, formula@, stack@)); // DEV
+                    assert(rgce@ =~= rg_in.skip(1));
+                    step_prefix(A::unary_plus, rg_in, ops_in, ctx, f_in, st_in, rgce@, formula@, stack@, '+');
+                    lemma_advance(__p_rgce@, ctx, rg_in, ops_in, f_in, st_in, rgce@, formula@, stack@);
                 }
 //@@ before /\}\s*0x14 =>/
                 proof {
-                    assume(arm_ok(rg_in, ops_in, ctx, f_in, st_in, rgce@, formula@, stack@)); // DEV
+                    assert(rgce@ =~= rg_in.skip(1));
+                    step_prefix(A::unary_minus, rg_in, ops_in, ctx, f_in, st_in, rgce@, formula@, stack@, '-');
+                    lemma_advance(__p_rgce@, ctx, rg_in, ops_in, f_in, st_in, rgce@, formula@, stack@);
                 }
 //@@ before /\}\s*0x15 =>/
                 proof {
-                    assume(arm_ok(rg_in, ops_in, ctx, f_in, st_in, rgce@, formula@, stack@)); // DEV
+                    assert(rgce@ =~= rg_in.skip(1));
+                    step_percent(A::percent, rg_in, ops_in, ctx, f_in, st_in, rgce@, formula@, stack@);
+                    lemma_advance(__p_rgce@, ctx, rg_in, ops_in, f_in, st_in, rgce@, formula@, stack@);
                 }
 //@@ before /\}\s*0x16 =>/
                 proof {
-                    assume(arm_ok(rg_in, ops_in, ctx, f_in, st_in, rgce@, formula@, stack@)); // DEV
+                    assert(rgce@ =~= rg_in.skip(1));
+                    step_paren(A::paren, rg_in, ops_in, ctx, f_in, st_in, rgce@, formula@, stack@);
+                    lemma_advance(__p_rgce@, ctx, rg_in, ops_in, f_in, st_in, rgce@, formula@, stack@);
                 }
 //@@ before /\}\s*0x17 =>/
                 proof {
-                    assume(arm_ok(rg_in, ops_in, ctx, f_in, st_in, rgce@, formula@, stack@)); // DEV
+                    lemma_push_add(f_in, 'x');
+                    assert(rgce@ =~= rg_in.skip(1));
+                    step_operand(A::ptgmissarg, rg_in, ops_in, ctx, f_in, st_in, rgce@, formula@, stack@, Seq::empty(), 1);
+                    lemma_advance(__p_rgce@, ctx, rg_in, ops_in, f_in, st_in, rgce@, formula@, stack@);
                 }
 //@@ before /\}\s*0x18 =>/
                 proof {
-                    assume(arm_ok(rg_in, ops_in, ctx, f_in, st_in, rgce@, formula@, stack@)); // DEV
+                    let d = rg_in.skip(1);
+                    let hb = d[1] & 0x1 != 0;
+                    let n = d[0] as int * xl_width(hb);
+                    let t = seq!['"'] + xl_chars(ctx.enc, hb, d.subrange(2, 2 + n)) + seq!['"'];
+                    assert(d.skip(1).subrange(1, 1 + n) =~= d.subrange(2, 2 + n));
+                    //# C14.ptgstr_text_in_quotes
+                    assert(formula@ =~= f_in + t);
+                    assert(rgce@ =~= rg_in.skip(3 + d[0] as int));
+                    ptgstr_length(d[0] as int, hb, 2 + d[0] as int);
+                    step_operand(A::ptgstr, rg_in, ops_in, ctx, f_in, st_in, rgce@, formula@, stack@, t, 3 + n);
+                    lemma_advance(__p_rgce@, ctx, rg_in, ops_in, f_in, st_in, rgce@, formula@, stack@);
                 }
 //@@ before /\}\s*0x19 =>/
                 proof {
-                    assume(arm_ok(rg_in, ops_in, ctx, f_in, st_in, rgce@, formula@, stack@)); // DEV
+                    step_none(A::ptg18, rg_in, ops_in, ctx, f_in, st_in, rgce@, formula@, stack@);
+                    lemma_advance(__p_rgce@, ctx, rg_in, ops_in, f_in, st_in, rgce@, formula@, stack@);
                 }
 //@@ before /\}\s*0x1C =>/
                 proof {
-                    assume(arm_ok(rg_in, ops_in, ctx, f_in, st_in, rgce@, formula@, stack@)); // DEV
+                    let n = len_of(rg_in, ctx);
+                    assert(rgce@ =~= rg_in.skip(n));
+                    if etpg == 0x10 { step_sum(A::ptgattr, rg_in, ops_in, ctx, f_in, st_in, rgce@, formula@, stack@); } else { step_skip(A::ptgattr, rg_in, ops_in, ctx, f_in, st_in, rgce@, formula@, stack@, n); }
+                    lemma_advance(__p_rgce@, ctx, rg_in, ops_in, f_in, st_in, rgce@, formula@, stack@);
                 }
 //@@ before /\}\s*0x1D =>/
                 proof {
-                    assume(arm_ok(rg_in, ops_in, ctx, f_in, st_in, rgce@, formula@, stack@)); // DEV
+                    assert(rgce@ =~= rg_in.skip(2));
+                    step_operand(A::ptgerr, rg_in, ops_in, ctx, f_in, st_in, rgce@, formula@, stack@, err_text(rg_in.skip(1)[0] as int)->Some_0, 2);
+                    lemma_advance(__p_rgce@, ctx, rg_in, ops_in, f_in, st_in, rgce@, formula@, stack@);
                 }
 //@@ before /\}\s*0x1E =>/
                 proof {
-                    assume(arm_ok(rg_in, ops_in, ctx, f_in, st_in, rgce@, formula@, stack@)); // DEV
+                    assert(rgce@ =~= rg_in.skip(2));
+                    step_operand(A::ptgbool, rg_in, ops_in, ctx, f_in, st_in, rgce@, formula@, stack@, (if rg_in.skip(1)[0] == 0 { "FALSE"@ } else { "TRUE"@ }), 2);
+                    lemma_advance(__p_rgce@, ctx, rg_in, ops_in, f_in, st_in, rgce@, formula@, stack@);
                 }
 //@@ before /\}\s*0x1F =>/
                 proof {
-                    assume(arm_ok(rg_in, ops_in, ctx, f_in, st_in, rgce@, formula@, stack@)); // DEV
+                    assert(rgce@ =~= rg_in.skip(3));
+                    step_operand(A::ptgint, rg_in, ops_in, ctx, f_in, st_in, rgce@, formula@, stack@, dec(le16(rg_in.skip(1)) as nat), 3);
+                    lemma_advance(__p_rgce@, ctx, rg_in, ops_in, f_in, st_in, rgce@, formula@, stack@);
                 }
 //@@ before /\}\s*0x20 \| 0x40 \| 0x60 =>/
                 proof {
-                    assume(arm_ok(rg_in, ops_in, ctx, f_in, st_in, rgce@, formula@, stack@)); // DEV
+                    assert(rgce@ =~= rg_in.skip(9));
+                    step_operand(A::ptgnum, rg_in, ops_in, ctx, f_in, st_in, rgce@, formula@, stack@, display::<f64>(f64_of_bits(le64(rg_in.skip(1)))), 9);
+                    lemma_advance(__p_rgce@, ctx, rg_in, ops_in, f_in, st_in, rgce@, formula@, stack@);
                 }
 //@@ before /\}\s*0x21 \| 0x22 \| 0x41/
                 proof {
-                    assume(arm_ok(rg_in, ops_in, ctx, f_in, st_in, rgce@, formula@, stack@)); // DEV
+                    step_none(A::ptgarray, rg_in, ops_in, ctx, f_in, st_in, rgce@, formula@, stack@);
+                    lemma_advance(__p_rgce@, ctx, rg_in, ops_in, f_in, st_in, rgce@, formula@, stack@);
                 }
 //@@ before /\}\s*0x24 \| 0x44 \| 0x64 =>/
                 proof {
-                    assume(arm_ok(rg_in, ops_in, ctx, f_in, st_in, rgce@, formula@, stack@)); // DEV
+                    assert(rgce@ =~= rg_in.skip(5));
+                    step_operand(A::ptgname, rg_in, ops_in, ctx, f_in, st_in, rgce@, formula@, stack@, ctx.names[le32(rg_in.skip(1)) - 1], 5);
+                    lemma_advance(__p_rgce@, ctx, rg_in, ops_in, f_in, st_in, rgce@, formula@, stack@);
                 }
 //@@ before /\}\s*0x25 \| 0x45 \| 0x65 =>/
                 proof {
-                    assume(arm_ok(rg_in, ops_in, ctx, f_in, st_in, rgce@, formula@, stack@)); // DEV
+                    let rw = le16(rg_in.skip(1));
+                    let cf = le16(rg_in.skip(1).skip(2));
+                    lemma_cell_text_pieces(f_in, rw, cf);
+                    assert(rgce@ =~= rg_in.skip(5));
+                    step_operand(A::ptgref, rg_in, ops_in, ctx, f_in, st_in, rgce@, formula@, stack@, cell_text(rw, cf), 5);
+                    lemma_advance(__p_rgce@, ctx, rg_in, ops_in, f_in, st_in, rgce@, formula@, stack@);
                 }
 //@@ before /\}\s*0x2A \| 0x4A \| 0x6A =>/
                 proof {
-                    assume(arm_ok(rg_in, ops_in, ctx, f_in, st_in, rgce@, formula@, stack@)); // DEV
+                    let r1 = le16(rg_in.skip(1)); let r2 = le16(rg_in.skip(1).skip(2)); let cf1 = le16(rg_in.skip(1).skip(4)); let cf2 = le16(rg_in.skip(1).skip(6));
+                    ptgarea_text(f_in, r1, r2, cf1, cf2, formula@);
+                    assert(rgce@ =~= rg_in.skip(9));
+                    step_operand(A::ptgarea, rg_in, ops_in, ctx, f_in, st_in, rgce@, formula@, stack@, area_text(r1, r2, cf1, cf2), 9);
+                    lemma_advance(__p_rgce@, ctx, rg_in, ops_in, f_in, st_in, rgce@, formula@, stack@);
                 }
 //@@ before /\}\s*0x2B \| 0x4B \| 0x6B =>/
                 proof {
-                    assume(arm_ok(rg_in, ops_in, ctx, f_in, st_in, rgce@, formula@, stack@)); // DEV
+                    assert(rgce@ =~= rg_in.skip(5));
+                    step_operand(A::ptgreferr, rg_in, ops_in, ctx, f_in, st_in, rgce@, formula@, stack@, "#REF!"@, 5);
+                    lemma_advance(__p_rgce@, ctx, rg_in, ops_in, f_in, st_in, rgce@, formula@, stack@);
                 }
 //@@ before /\}\s*0x39 \| 0x59 =>/
                 proof {
-                    assume(arm_ok(rg_in, ops_in, ctx, f_in, st_in, rgce@, formula@, stack@)); // DEV
+                    assert(rgce@ =~= rg_in.skip(9));
+                    step_operand(A::ptgareaerr, rg_in, ops_in, ctx, f_in, st_in, rgce@, formula@, stack@, "#REF!"@, 9);
+                    lemma_advance(__p_rgce@, ctx, rg_in, ops_in, f_in, st_in, rgce@, formula@, stack@);
                 }
 //@@ before /\}\s*_ => \{\s*return Err\(XlsError::Unrecognized \{\s*typ: \"ptg\"/
                 proof {
-                    assume(arm_ok(rg_in, ops_in, ctx, f_in, st_in, rgce@, formula@, stack@)); // DEV
+                    step_none(A::ptgnamex, rg_in, ops_in, ctx, f_in, st_in, rgce@, formula@, stack@);
+                    lemma_advance(__p_rgce@, ctx, rg_in, ops_in, f_in, st_in, rgce@, formula@, stack@);
                 }
 //@@ before /push_column\(col as u32, &mut formula\);/#1of2
                 let ghost rw = le16(rg_in.skip(1));
@@ -1612,21 +1734,21 @@ verus! {
                         lemma_func_text(pp, nm, aa, hd, fl, fp, formula@);
                         assert(rgce@ =~= rg_in.skip(len_of(rg_in, ctx)));
                         step_func(A::ptgfunc, rg_in, ops_in, ctx, f_in, st_in, rgce@, formula@, stack@, nm, argc as int, len_of(rg_in, ctx));
+                        lemma_advance(__p_rgce@, ctx, rg_in, ops_in, f_in, st_in, rgce@, formula@, stack@);
                     }
 //@@ after /formula\.push_str\("\(\)"\);/
                     proof {
                         assert(rgce@ =~= rg_in.skip(len_of(rg_in, ctx)));
                         step_func0(A::ptgfunc, rg_in, ops_in, ctx, f_in, st_in, rgce@, formula@, stack@, ftab_name(iftab as int), len_of(rg_in, ctx));
+                        lemma_advance(__p_rgce@, ctx, rg_in, ops_in, f_in, st_in, rgce@, formula@, stack@);
                     }
 //@@ before /\}\s*if stack\.len\(\)/
         proof {
-            lemma_arm_ok_use(rg_in, ops_in, ctx, f_in, st_in, rgce@, formula@, stack@);
-            ops = if step(rg_in, ops_in, ctx) is Some { step(rg_in, ops_in, ctx)->Some_0.1 } else { ops_in };
+            ops = next_ops(rg_in, ops_in, ctx);
         }
 //@@ before /(?<=\})\s*if stack\.len\(\)/
     proof {
-        lemma_run_step(rgce@, ops, ctx);
-        lemma_repr_basics(formula@, stack@, ops);
+        lemma_inv_use(__p_rgce@, ctx, rgce@, ops, formula@, stack@);
     }
 //@@ end
 }
